@@ -67,6 +67,27 @@ func (h *Half) read(p []byte, max int) (int, error) {
 	return n, nil
 }
 
+// waitAvailable blocks until at least one byte is buffered (true) or the stream is closed /
+// the deadline expires (false).
+func (h *Half) waitAvailable() bool {
+	h.mu.Lock()
+	defer h.mu.Unlock()
+	for len(h.buf) == 0 && !h.closed && !h.expired() {
+		h.c.Wait()
+	}
+	return len(h.buf) > 0
+}
+
+// waitDeadlineOnly blocks until a read deadline expires or the half is closed: the peer has
+// gone silent.
+func (h *Half) waitDeadlineOnly() {
+	h.mu.Lock()
+	defer h.mu.Unlock()
+	for !h.closed && !h.expired() {
+		h.c.Wait()
+	}
+}
+
 func (h *Half) empty() bool {
 	h.mu.Lock()
 	defer h.mu.Unlock()
@@ -114,6 +135,8 @@ type Conn struct {
 	nWrite   int
 	wdl      time.Time
 	isClosed bool
+	peer     *Conn // other end of a Pipe: closing this end ends the peer's input
+	frozen   bool  // the peer has gone silent: reads only end by deadline or close
 
 	// React, when set, is called synchronously with every chunk the library writes
 	// (after it was appended to Wire); the scripted peer parses it and calls Feed.
@@ -129,6 +152,12 @@ type Conn struct {
 	// ErrInjected; MaxChunk limits the bytes returned per Read.
 	FailRead, FailWrite int
 	MaxChunk            int
+	// CutIn > 0: the peer's byte stream ends after CutIn bytes (the reader sees EOF there).
+	// CutIn = -1 is "at offset 0" (0 means no cut).
+	CutIn int
+	// FailWriteIf, when set, makes a Write fail with ErrInjected (nothing is delivered) if it
+	// returns true for the bytes about to be written.
+	FailWriteIf func(p []byte) bool
 	// OnEvent receives transport-level events: "deadline" (set|clear|readset|...),
 	// "fault" (read|write, index), "close".
 	OnEvent func(kind string, arg string, n int)
@@ -161,6 +190,20 @@ func (c *Conn) CloseIn() { c.in.close() }
 
 // InputEmpty reports whether the library has consumed everything fed so far.
 func (c *Conn) InputEmpty() bool { return c.in.empty() }
+
+// Freeze makes the peer silent from now on: reads block until a deadline expires or the
+// connection is closed, whatever is already buffered.
+func (c *Conn) Freeze() {
+	c.mu.Lock()
+	c.frozen = true
+	c.mu.Unlock()
+}
+
+func (c *Conn) isFrozen() bool {
+	c.mu.Lock()
+	defer c.mu.Unlock()
+	return c.frozen
+}
 
 // Consumed returns the number of input bytes the library has read so far.
 func (c *Conn) Consumed() int {
@@ -205,6 +248,29 @@ func (c *Conn) Read(p []byte) (int, error) {
 	if c.Starve != nil && c.in.empty() {
 		c.Starve()
 	}
+	if c.CutIn != 0 {
+		limit := c.CutIn
+		if limit < 0 {
+			limit = 0
+		}
+		left := limit - c.Consumed()
+		if left <= 0 {
+			// wait until the byte at the cut would have been available, so that the cut is at
+			// this stream offset and not earlier in time than the bytes before it
+			if !c.in.waitAvailable() {
+				return c.in.read(p, c.MaxChunk)
+			}
+			c.event("fault", "cut", limit)
+			return 0, io.EOF
+		}
+		if len(p) > left {
+			p = p[:left]
+		}
+	}
+	if c.isFrozen() {
+		c.in.waitDeadlineOnly()
+		return 0, os.ErrDeadlineExceeded
+	}
 	return c.in.read(p, c.MaxChunk)
 }
 
@@ -216,6 +282,9 @@ func (c *Conn) Write(p []byte) (int, error) {
 	c.nWrite++
 	k := c.nWrite
 	fail := c.FailWrite != 0 && k == c.FailWrite
+	if !fail && c.FailWriteIf != nil && c.FailWriteIf(p) {
+		fail = true
+	}
 	expired := !c.wdl.IsZero() && !time.Now().Before(c.wdl)
 	closed := c.isClosed
 	if !fail && !expired && !closed {
@@ -250,6 +319,9 @@ func (c *Conn) Close() error {
 	c.mu.Unlock()
 	c.in.close()
 	c.out.close()
+	if c.peer != nil {
+		c.peer.in.close()
+	}
 	c.event("close", "", 0)
 	return nil
 }
@@ -302,6 +374,7 @@ func Pipe() (*Conn, *Conn) {
 	a, b := NewConn(), NewConn()
 	a.React = func(p []byte) { b.in.write(p) }
 	b.React = func(p []byte) { a.in.write(p) }
+	a.peer, b.peer = b, a
 	return a, b
 }
 
